@@ -19,6 +19,7 @@ import (
 	"strconv"
 	"reflect"
 	"runtime"
+	"runtime/metrics"
 	"strings"
 	"time"
 
@@ -34,7 +35,7 @@ import (
 // ---------------------------------------------------------------- type descriptors
 
 type T struct {
-	K      string // u big bool bytes arr str list ptr raw iface struct
+	K      string // u big bigv bool bytes arr str list ptr raw iface struct vec
 	Bits   int
 	N      int
 	Elem   *T
@@ -93,18 +94,43 @@ func (f F) structTag() reflect.StructTag {
 	return reflect.StructTag(`rlp:"` + strings.Join(p, ",") + `"`)
 }
 
-func (t *T) tokens() string {
+// tokens: the descriptor as the model driver reads it.  Two Go shapes have no constructor of
+// their own in the model because an existing one has exactly their semantics: a big.Int held by
+// value ("bigv") is the model's big integer that is never nil, and an array [n]T of non-byte
+// elements ("vec") is encoded and decoded like a struct of n untagged fields of type T (list
+// header, the n elements in order, "too few" / "too many" elements otherwise).
+func (t *T) tokens() string { return t.toks(true) }
+
+// key: like tokens but keeps bigv and vec apart (cache key of the realised reflect.Type)
+func (t *T) key() string { return t.toks(false) }
+
+func (t *T) toks(model bool) string {
 	switch t.K {
 	case "u":
 		return fmt.Sprintf("u%d", t.Bits)
 	case "arr":
 		return fmt.Sprintf("arr %d", t.N)
+	case "bigv":
+		if model {
+			return "big"
+		}
+		return "bigv"
+	case "vec":
+		if !model {
+			return fmt.Sprintf("vec %d %s", t.N, t.Elem.toks(model))
+		}
+		s := fmt.Sprintf("struct %d", t.N)
+		e := t.Elem.toks(model)
+		for i := 0; i < t.N; i++ {
+			s += " - " + e
+		}
+		return s
 	case "list", "ptr":
-		return t.K + " " + t.Elem.tokens()
+		return t.K + " " + t.Elem.toks(model)
 	case "struct":
 		s := fmt.Sprintf("struct %d", len(t.Fields))
 		for _, f := range t.Fields {
-			s += " " + f.tagTok() + " " + f.T.tokens()
+			s += " " + f.tagTok() + " " + f.T.toks(model)
 		}
 		return s
 	}
@@ -122,7 +148,7 @@ func (t *T) rtype() reflect.Type {
 	if t.rt != nil {
 		return t.rt
 	}
-	key := t.tokens()
+	key := t.key()
 	if rt, ok := typeCache[key]; ok {
 		t.rt = rt
 		return rt
@@ -142,6 +168,10 @@ func (t *T) rtype() reflect.Type {
 		}
 	case "big":
 		rt = bigPtrType
+	case "bigv":
+		rt = bigPtrType.Elem()
+	case "vec":
+		rt = reflect.ArrayOf(t.N, t.Elem.rtype())
 	case "bool":
 		rt = reflect.TypeOf(false)
 	case "bytes":
@@ -216,6 +246,9 @@ func genLeaf(r *gen.Rand) *T {
 	case 0:
 		return &T{K: "u", Bits: []int{8, 16, 32, 64, 64}[r.Intn(5)]}
 	case 1:
+		if r.Chance(1, 4) {
+			return &T{K: "bigv"}
+		}
 		return &T{K: "big"}
 	case 2:
 		return &T{K: "bool"}
@@ -236,7 +269,7 @@ func genType(r *gen.Rand, depth int) *T {
 	if depth <= 0 || r.Chance(2, 5) {
 		return genLeaf(r)
 	}
-	switch r.Pick(3, 2, 4) {
+	switch r.Pick(3, 2, 4, 1) {
 	case 0:
 		e := genType(r, depth-1)
 		if e.K == "u" && e.Bits == 8 {
@@ -244,7 +277,18 @@ func genType(r *gen.Rand, depth int) *T {
 		}
 		return &T{K: "list", Elem: e}
 	case 1:
-		return &T{K: "ptr", Elem: genType(r, depth-1)}
+		e := genType(r, depth-1)
+		if e.K == "bigv" {
+			e = &T{K: "big"} // a pointer to a big.Int value IS the *big.Int of kind "big"
+		}
+		return &T{K: "ptr", Elem: e}
+	case 3:
+		// [n]T with a non-byte element type (decodeListArray / the slice writer)
+		e := genType(r, depth-2)
+		if e.K == "u" && e.Bits == 8 {
+			e = &T{K: "u", Bits: 32}
+		}
+		return &T{K: "vec", N: []int{0, 1, 2, 3, 4}[r.Intn(5)], Elem: e}
 	default:
 		return genStruct(r, depth)
 	}
@@ -363,6 +407,15 @@ func genVal(r *gen.Rand, t *T, f F, v reflect.Value, wild bool) {
 			return
 		}
 		v.Set(reflect.ValueOf(genBig(r)))
+	case "bigv":
+		v.Set(reflect.ValueOf(*genBig(r)))
+	case "vec":
+		if r.Chance(1, 8) {
+			return // all elements zero
+		}
+		for i := 0; i < t.N; i++ {
+			genVal(r, t.Elem, F{}, v.Index(i), wild)
+		}
 	case "bool":
 		v.SetBool(r.Bool())
 	case "bytes":
@@ -466,6 +519,15 @@ func dump(t *T, v reflect.Value) string {
 			return "nil"
 		}
 		return "u " + v.Interface().(*big.Int).String()
+	case "bigv":
+		x := v.Interface().(big.Int)
+		return "u " + x.String()
+	case "vec":
+		s := fmt.Sprintf("s %d", t.N)
+		for i := 0; i < t.N; i++ {
+			s += " " + dump(t.Elem, v.Index(i))
+		}
+		return s
 	case "bool":
 		if v.Bool() {
 			return "t"
@@ -521,6 +583,12 @@ func wf(t *T, f F, v reflect.Value) bool {
 			return false
 		}
 		for i := 0; i < v.Len(); i++ {
+			if !wf(t.Elem, F{}, v.Index(i)) {
+				return false
+			}
+		}
+	case "vec":
+		for i := 0; i < t.N; i++ {
 			if !wf(t.Elem, F{}, v.Index(i)) {
 				return false
 			}
@@ -598,7 +666,7 @@ func errClass(err error) string {
 	case strings.Contains(s, "input list has too many elements"):
 		return "toomany"
 	case strings.Contains(s, "input list has too few elements"):
-		return "arrtoofew"
+		return "toofew" // decodeListArray; same class as the struct decoder's (see T.tokens)
 	case strings.Contains(s, "too few elements"):
 		return "toofew"
 	case strings.Contains(s, "invalid boolean value"):
@@ -607,6 +675,14 @@ func errClass(err error) string {
 		return "wrongempty"
 	case strings.Contains(s, "uint overflow"):
 		return "uintoverflow"
+	case strings.Contains(s, "ListEnd not positioned at EOL"):
+		return "toomany"
+	case strings.Contains(s, "ListEnd outside of any list"):
+		return "notinlist"
+	case strings.Contains(s, "input value has wrong size"):
+		return "wrongsize"
+	case strings.Contains(s, "cannot encode negative"):
+		return "negative"
 	}
 	return "other:" + strings.ReplaceAll(s, " ", "_")
 }
@@ -621,6 +697,20 @@ func memNow() uint64 {
 	var m runtime.MemStats
 	runtime.ReadMemStats(&m)
 	return m.TotalAlloc
+}
+
+// memFast: cumulative heap allocation without stopping the world.  Large objects are accounted
+// at once, small ones when their span is handed back, so the figure can lag by a few spans: it
+// is used as a filter only; an operation that looks expensive is repeated under the exact
+// (stop-the-world) measure before anything is reported.
+var memSample = []metrics.Sample{{Name: "/gc/heap/allocs:bytes"}}
+
+func memFast() uint64 {
+	metrics.Read(memSample)
+	if memSample[0].Value.Kind() != metrics.KindUint64 {
+		return memNow()
+	}
+	return memSample[0].Value.Uint64()
 }
 
 // allocation allowed for decoding n input bytes: generous constant factor (pointer-rich
@@ -679,15 +769,23 @@ func decodeOp(t *T, h []byte, arbiter bool) string {
 	}
 	rt := t.rtype()
 	p := reflect.New(rt)
-	m0 := memNow()
+	m0 := memFast()
 	err, pan := safeDecode("kai", h, p.Interface())
-	m1 := memNow()
+	m1 := memFast()
 	if pan {
 		o.Fail(step, "panic-decode", fmt.Sprintf("type=[%s] input=%s %v", t.tokens(), hexs(h), err))
 		return "PANIC"
 	}
-	if d := m1 - m0; d > allocBound(len(h)) {
-		o.Fail(step, "alloc-unbounded", fmt.Sprintf("type=[%s] input=%s allocated=%d bound=%d", t.tokens(), hexs(h), d, allocBound(len(h))))
+	if m1-m0 > allocBound(len(h))/2 {
+		// exact measure on a repetition (a fresh target; the type cache is warm now)
+		o.Count("alloc.exact-remeasure")
+		p2 := reflect.New(rt)
+		e0 := memNow()
+		safeDecode("kai", h, p2.Interface())
+		e1 := memNow()
+		if d := e1 - e0; d > allocBound(len(h)) {
+			o.Fail(step, "alloc-unbounded", fmt.Sprintf("type=[%s] input=%s allocated=%d bound=%d", t.tokens(), hexs(h), d, allocBound(len(h))))
+		}
 	}
 	var obs string
 	if err != nil {
@@ -1002,23 +1100,53 @@ func genHostile(r *gen.Rand, encs [][]byte, n int) []hostile {
 
 const hugeDeclared = 256 << 20
 
+// declaresHuge: does any header that a decoder can reach declare more than hugeDeclared bytes?
+// Headers are only ever read at structural positions: the start of the input, the first byte
+// of a list payload (decoders that descend), the byte after a complete item (all decoders, the
+// raw splitter, CountValues).  All of these are followed, whether or not the header is canonical
+// or fits the input; bytes inside string contents are never headers.
 func declaresHuge(b []byte) bool {
-	for i, t := range b {
-		var n int
-		switch {
-		case t >= 0xb8 && t <= 0xbf:
-			n = int(t - 0xb7)
-		case t >= 0xf8:
-			n = int(t - 0xf7)
-		default:
+	seen := make([]bool, len(b)+1)
+	work := []int{0}
+	for len(work) > 0 {
+		p := work[len(work)-1]
+		work = work[:len(work)-1]
+		if p >= len(b) || seen[p] {
 			continue
 		}
+		seen[p] = true
+		t := b[p]
+		hdr, isList := 1, t >= 0xc0
 		var size uint64
-		for j := 0; j < n && i+1+j < len(b); j++ {
-			size = size<<8 | uint64(b[i+1+j])
+		switch {
+		case t < 0x80:
+			hdr, size = 0, 1
+		case t < 0xb8:
+			size = uint64(t - 0x80)
+		case t < 0xc0:
+			hdr = 1 + int(t-0xb7)
+		case t < 0xf8:
+			size = uint64(t - 0xc0)
+		default:
+			hdr = 1 + int(t-0xf7)
+		}
+		if hdr > 1 {
+			for j := 1; j < hdr && p+j < len(b); j++ {
+				size = size<<8 | uint64(b[p+j])
+			}
+			if p+hdr > len(b) {
+				// truncated size field: what is there may still be used as the high bytes
+				size <<= 8 * uint(p+hdr-len(b))
+			}
 		}
 		if size > hugeDeclared {
 			return true
+		}
+		if isList {
+			work = append(work, p+hdr)
+		}
+		if end := uint64(p+hdr) + size; end <= uint64(len(b)) {
+			work = append(work, int(end))
 		}
 	}
 	return false
@@ -1238,6 +1366,7 @@ func rawOps(h []byte) {
 		}
 		return fmt.Sprintf("c %d", n)
 	})
+	guard("IT", func() string { return iterOp(h) })
 	// direct oracle: Split agrees with the stream decoder on the first value: if Split accepts a
 	// string, re-creating its canonical header gives back the consumed prefix
 	if splitOK {
@@ -1356,6 +1485,11 @@ func realCase(r *gen.Rand, which int) (t *T, encs [][]byte, reDecode func(h []by
 			if !bytes.Equal(e, e2) || back.Hash() != tx.Hash() {
 				fail("real-hash-unstable", fmt.Sprintf("tx enc=%s reenc=%s", hexs(e), hexs(e2)))
 			}
+			// Transaction.DecodeRLP caches ListSize(size of the list ahead) as the transaction's size
+			if sz := back.Size(); sz != common.StorageSize(len(e)) || tx.Size() != common.StorageSize(len(e)) {
+				fail("real-size-differs", fmt.Sprintf("tx enc=%s (%d bytes) Size() after decode=%v, of the original=%v", hexs(e), len(e), sz, tx.Size()))
+			}
+			encodePaths(r, "tx", tx, e)
 		}
 		reDecode = func(h []byte) {
 			var x types.Transaction
@@ -1408,6 +1542,11 @@ func realCase(r *gen.Rand, which int) (t *T, encs [][]byte, reDecode func(h []by
 			}
 			o.Op("E "+val, "e "+hexs(e))
 			encs = append(encs, e)
+			if storage {
+				encodePaths(r, "receipt-storage", (*types.ReceiptForStorage)(rc), e)
+			} else {
+				encodePaths(r, "receipt", rc, e)
+			}
 			var e2 []byte
 			if storage {
 				var back types.ReceiptForStorage
@@ -1891,15 +2030,26 @@ func runCase(r *gen.Rand, c int) {
 	var reDecode func([]byte)
 	real := c%8 == 7
 	rec := c%16 == 3
+	edge := c%16 == 11
 	recFam := 0
-	if rec {
+	if c%64 == 1 {
+		negativeBigChecks()
+	}
+	if edge {
+		o.Count("case.edge-list")
+		encs = edgeCase(r)
+		t = tIface
+		o.InOnly("T iface")
+	} else if rec {
 		t, encs = recCase(r, c)
 		for recFam = 0; recFam < nRecFam && recDesc(recFam, 0).rt != t.rt; recFam++ {
 		}
 	} else if real {
-		which := r.Intn(5)
+		which := r.Intn(6)
 		// the descriptor line must precede the E ops that realCase emits
 		switch which {
+		case 5:
+			t = headerDescriptor()
 		case 0:
 			t = txDescriptor()
 		case 1:
@@ -1912,14 +2062,36 @@ func runCase(r *gen.Rand, c int) {
 			t = slimDescriptor()
 		}
 		o.InOnly("T " + t.tokens())
-		o.Count("case.real." + []string{"tx", "receipt", "receipt-storage", "account", "slim-account"}[which])
-		t, encs, reDecode = realCase(r, which)
+		o.Count("case.real." + []string{"tx", "receipt", "receipt-storage", "account", "slim-account", "header"}[which])
+		if which == 5 {
+			encs, reDecode = headerCase(r)
+		} else {
+			t, encs, reDecode = realCase(r, which)
+		}
 		o.Mark("real:" + fmt.Sprint(which, len(encs)))
 	} else {
 		if r.Chance(2, 3) {
 			t = genStruct(r, 3)
 		} else {
 			t = genType(r, 3)
+		}
+		if t.hasOptional() || t.any(func(x *T) bool {
+			for _, f := range x.Fields {
+				if f.Ign {
+					return true
+				}
+			}
+			return false
+		}) {
+			// the zero value of a big.Int held by value is the integer 0, the model's zero big integer
+			// is the nil pointer: by-value big integers only appear in types in which no zero value
+			// is ever tested or created (no optional fields, no ignored fields)
+			t.any(func(x *T) bool {
+				if x.K == "bigv" {
+					x.K = "big"
+				}
+				return false
+			})
 		}
 		o.InOnly("T " + t.tokens())
 		o.Count("case.generated")
@@ -1952,6 +2124,8 @@ func runCase(r *gen.Rand, c int) {
 				continue
 			}
 			if err != nil {
+				// every generated value is in the encoder's domain (no negative big integers)
+				o.Fail(step, "encode-rejected", fmt.Sprintf("type=[%s] value=[%s] %v", t.tokens(), ds, err))
 				o.Op("E "+ds, "e err "+errClass(err))
 				continue
 			}
@@ -1961,6 +2135,7 @@ func runCase(r *gen.Rand, c int) {
 			if e2, _, _ := safeEncode("kai", v.Interface()); !bytes.Equal(e, e2) {
 				o.Fail(step, "encode-nondeterministic", fmt.Sprintf("type=[%s] value=[%s]", t.tokens(), ds))
 			}
+			encodePaths(r, "type=["+t.tokens()+"] value=["+ds+"]", v.Interface(), e)
 			// reference implementation
 			if arb {
 				o.Count("value.arbiter-compared")
@@ -2052,6 +2227,31 @@ func runCase(r *gen.Rand, c int) {
 	}
 	for _, h := range hs {
 		rawOps(h.b)
+	}
+	// several values in a row on one Stream, the Stream used by hand, the EncoderBuffer, raw helpers
+	if !rec {
+		o.InOnly("T " + t.tokens())
+		multiStream(r, t, encs, hs)
+		multiStream(r, t, encs, hs)
+	}
+	for i := 0; i < 3; i++ {
+		var b []byte
+		switch {
+		case r.Chance(1, 2) && len(encs) > 0:
+			b = encs[r.Intn(len(encs))]
+		case r.Chance(1, 2):
+			b, _ = rlp.EncodeToBytes(genItem(r, 3))
+		default:
+			b = hs[r.Intn(len(hs))].b
+			if declaresHuge(b) {
+				b = bvecs[r.Intn(len(bvecs))]
+			}
+		}
+		streamScript(r, b)
+	}
+	if c%4 == 2 {
+		ebOp(r, genItem(r, 3))
+		rawHelperOps(r)
 	}
 	// CountValues / Split on the payload of a list encoding (several values in a row)
 	for _, e := range encs {
